@@ -23,7 +23,7 @@ fn ms(x: i64) -> Duration {
 
 pub struct C16;
 
-const C16_KINDS: &[&str] = &["interval", "interval-default-take", "timer", "delay", "timeout", "sample", "debounce", "delay-two-sources", "sample-two-triggers"];
+const C16_KINDS: &[&str] = &["interval", "interval-default-take", "timer", "delay", "timeout", "sample", "debounce", "delay-two-sources", "sample-two-triggers", "timeout-two-sources"];
 
 impl Family for C16 {
   fn name(&self) -> &'static str {
@@ -169,10 +169,16 @@ impl Family for C16 {
     }
     let gaps_b_ns: Vec<u64> = gaps_b.iter().map(|g| *g as u64 * MS).collect();
     let script_b: Vec<Step> = script.iter().map(|s| if let Step::N(i) = s { Step::N(*i + 100) } else { s.clone() }).collect();
+    // kind "timeout-two-sources": A's item at gaps[0], delivered for d/2 + 9 ms; B's item arrives 5 ms into that
+    let two_a_ns = gaps[0] as u64 * MS;
+    let two_b_ns = two_a_ns + 5 * MS;
+    let two_work_ns = (d as u64 / 2 + 9) * MS;
     let mut rec = Recorder::new();
     // two trigger threads and a subscriber that is still busy with a sample when the other ticks
     let rec_delays_two = kind == "sample-two-triggers";
-    rec.next_delays_ns = Arc::new(if rec_delays_two {
+    rec.next_delays_ns = Arc::new(if kind == "timeout-two-sources" {
+      vec![two_work_ns, 0]
+    } else if rec_delays_two {
       vec![trigger_ms as u64 * MS; 16]
     } else if slow_ticks { vec![tick_work as u64 * MS; 16] } else if consumer_work > 0 { vec![consumer_work as u64 * MS; 16] } else { delays.iter().map(|x| *x as u64 * MS).collect() });
     let rec_b = Recorder::new();
@@ -237,6 +243,16 @@ impl Family for C16 {
           mark("subscribe");
           let _sub = rec2.subscribe(&src().timeout(ms(d), schedulers::new_thread_scheduler()));
         }
+        "timeout-two-sources" => {
+          // producer A's only item is still being delivered (slow consumer) when producer B's arrives;
+          // then silence: the TimedOut is owed all the same
+          let a = threaded_source("timed-source", vec![Step::N(100)], sl.clone(), false, vec![two_a_ns], handles.clone());
+          let b = threaded_source("timed-source-b", vec![Step::N(200)], sl.clone(), false, vec![two_b_ns], handles.clone());
+          mark("subscribe");
+          let sub = rec2.subscribe(&a.merge(&[b]).timeout(ms(d), schedulers::new_thread_scheduler()));
+          rt::thread::sleep(Duration::from_nanos(two_b_ns + two_work_ns + 3 * d as u64 * MS));
+          sub.unsubscribe();
+        }
         "sample-two-triggers" => {
           mark("subscribe");
           let trig = observables::interval(ms(trigger_ms), schedulers::new_thread_scheduler()).merge(&[observables::interval(ms(trigger_ms + 17), schedulers::new_thread_scheduler())]);
@@ -277,6 +293,7 @@ impl Family for C16 {
       "interval-default-take" => "interval",
       "delay-two-sources" => "delay",
       "sample-two-triggers" => "sample",
+      "timeout-two-sources" => "timeout",
       k => k,
     };
     let mut v = Vec::new();
@@ -434,6 +451,25 @@ impl Family for C16 {
             let mine: Vec<i64> = got.iter().map(|r| r.ev.clone()).filter_map(|e| if let Ev::Next(x) = e { Some(x.int()) } else { None }).filter(|x| *x >= lo && *x < lo + 100).collect();
             if mine.windows(2).any(|p| p[0] >= p[1]) {
               v.push(Violation::new("reordered", "delay", format!("[{}] delay changed the order of one producer's items: {}", cfg_name, shown)));
+            }
+          }
+        }
+        "timeout-two-sources" => {
+          // both items, then exactly one TimedOut: not before d after the last item arrived, not
+          // later than d after the last delivery returned (the statement does not say which)
+          let items: Vec<&Rec> = evs.iter().filter(|r| matches!(r.ev, Ev::Next(_))).collect();
+          let last_arrival = emits.iter().filter(|e| matches!(e.step, Step::N(_))).map(|e| e.t_start).max().unwrap_or(0);
+          let last_return = emits.iter().filter(|e| matches!(e.step, Step::N(_))).map(|e| e.t).max().unwrap_or(0);
+          let errs: Vec<&Rec> = evs.iter().filter(|r| r.ev.is_terminal()).collect();
+          if items.len() != 2 {
+            v.push(Violation::new("item-lost", blame, format!("[{}] timeout fed by two threads: both items must pass, got {}", cfg_name, shown)));
+          } else if errs.len() != 1 || errs[0].ev != Ev::Error(-2) {
+            v.push(Violation::new("missing-timeout", blame, format!("[{}] timeout({}ms) fed by two threads, the second item arriving while the first is being delivered, then silence: exactly one TimedOut is owed, got {}", cfg_name, d, shown)));
+          } else {
+            let (lo, hi) = (last_arrival + dn, last_return + dn);
+            let ok = if jitter { errs[0].t >= lo } else { errs[0].t >= lo && errs[0].t <= hi };
+            if !ok {
+              v.push(Violation::new("wrong-instant", blame, format!("[{}] timeout({}ms) fed by two threads: TimedOut delivered at {:.1}ms, expected within [{:.1}, {:.1}]ms: {}", cfg_name, d, errs[0].t as f64 / 1e6, lo as f64 / 1e6, hi as f64 / 1e6, shown)));
             }
           }
         }
